@@ -1,4 +1,5 @@
 import RedactVerif.Props.L2
+import RedactVerif.Proofs.U.Top
 import RedactVerif.Props.FactsClassify
 import RedactVerif.Proofs.PrinterNI
 /-
@@ -79,6 +80,30 @@ theorem leaf_classified (env : Env) (p q : PP) (id verb : Nat) (h : leafWrite1 e
         simp only [Res.bind, Res.ok.injEq] at h
         subst h
         simp [PP.restore, PP.w, ho]
+
+/-- **The complete rendering of an unsafe leaf is inside envelopes**: what `leaf_classified` says a
+leaf write does when no safe override is in force — switch to unsafe mode, write the rendering
+(padding, sign, quotes, prefixes and all: they are part of `bytes`), switch back — leaves the buffer
+closed and validated, and outside envelopes nothing but line feeds was added to what the output
+would have been without the leaf (`finalize`). The hypothesis `hT`: the text before the leaf does
+not end in a truncated character. -/
+theorem unsafe_write_enveloped (b : Buffer) (hi : Inv b) (hm : b.mode ≠ .unsafeEsc)
+    (hT : tailBad b.finalize.buf = false) (bytes : List Byte) :
+    let b' := ((b.setMode .unsafeEsc).write bytes).setMode b.mode
+    b'.validUntil = b'.buf.length ∧ b'.markerOpen = false ∧
+      ∃ l, OnlyLFs l ∧ U.fT b' = U.fT b.finalize ++ l := by
+  intro b'
+  have ⟨e1, v1, o1⟩ := setMode_buf b .unsafeEsc hi hm
+  have h0 : BU (b.setMode .unsafeEsc) (b.setMode .unsafeEsc) :=
+    BU.refl (inv_setMode _ _ hi) (setMode_mode _ _) (fun _ => by rw [e1]; exact hT)
+  have ⟨_, vv, oo, l, ol, el⟩ := U.BU_exit (BU_write h0 bytes) b.mode hm
+  refine ⟨vv, oo, l, ol, ?_⟩
+  show U.fT (((b.setMode .unsafeEsc).write bytes).setMode b.mode) = _
+  rw [el]
+  congr 1
+  show safeText (evT (tokenize (b.setMode .unsafeEsc).pre)) = _
+  rw [pre_of_full v1, e1]
+  rfl
 
 /-- Registered safe types and SafeValues are printed under a safe override:
 `printArg` of such a value is its body bracketed by `startSafeOverride`. -/
